@@ -20,15 +20,19 @@ TRUSTED = [
     "Python glue: generators, canonical forms of values (harness/partlib.py), metadata block -> model kind",
     "extraction and driver are cross-checked on every run: ~30 of the commands issued are re-evaluated by the Coq kernel "
     "(vm_compute) and must give the output the extracted program printed (obligations extract_agrees_*); thorough tier: coqchk -o",
-    "model domain of int(text): ASCII white space, sign, digits with single underscores (non-ASCII digits not modelled)",
+    "int(text): modelled for every text - ASCII white space (Py_ISSPACE), sign, digits with single underscores; characters of other scripts through "
+    "the tables udigit_zeros (68 runs of Unicode decimal digits) / uspaces of Impl/Partition.v, compared on every run with unicodedata / str.isspace "
+    "of the running interpreter (obligation 'digit table'); UTF-8 decoding of well-formed text",
 ]
 
 STR_POOL = ["a", "b", "1", "2", "-3", "007", "True", "False", "nan", "NaN", "now", "", "é", "日本", "x y", " lead",
             "0.7", ".7", "1e5", "2020-01-01", "1_0", "+1", "a.b", "a-b", "None", "inf", "1.0", "0x10", "t", "T",
             "2020-01-01T00:00:00", "1 days", "A" * 30, "\U0001F600", "-", "null", "0", "1.5", "TRUE", "#", "a%20b",
             "a*b", "[x]", "q?", "a:b", "tab\tx", "~", "a b ", "-inf", "1e400",
+            "\u0663", "\uff11\uff12", "\u0967\u0968\u0969", "1\u0663", "\u00a07", "\u0663_\u0664",      # Unicode decimal digits / white space: int() reads them
             "B", "\u00e9t\u00e9", "e\u0301te\u0301", "x ", "x", "\u212b", "\u00c5", "ss", "\u00df", "I", "\u0131"]      # case / normalisation / whitespace pairs
-ADVERSARIAL = STR_POOL + ["true", " 7 ", "7 ", "\t7", "1__0", "_1", "1_", "--1", "+-1", "1e", "e5", "1.", "-.5e-3",
+ADVERSARIAL = STR_POOL + ["\u0663x", "\u00b2", "\u2167", "\u4e00", "\x1f7", "7\x1f", "\x1c", "7\x7f", "7\u0085", "\u20037\u3000", "-\u0663", "+\uff17",
+                          "\u0663.\u0665", "\U0001d7ce\U0001d7cf", "\u0e51\u0e52", "\u0663\u00a0", "1\u00a02", "\ud7ff", "true", " 7 ", "7 ", "\t7", "1__0", "_1", "1_", "--1", "+-1", "1e", "e5", "1.", "-.5e-3",
                           "Infinity", "-inf", "0b1", "12abc", "2020-13-01", "20200101_120000.000000",
                           "20200101_120000.5", "2020-01-01 01:02:03.5", "2020-01-01T01:02:03.000000005",
                           "1677-01-01", "3000-01-01", "1 day", "5min", "P1D", "9223372036854775808",
@@ -135,6 +139,27 @@ def _run(ctx, pq):
                 "every row_group_offsets form, hive and drill: write, walk the tree, read every file, read the dataset (forked workers). "
                 "Trivial: frames with no row having all keys non-null; distinct = distinct case data")
 
+    # ---------------------------------------------------------------- the Unicode tables of the model of int() vs this interpreter
+    import sys
+    import unicodedata
+    zeros = [c for c in range(sys.maxunicode + 1) if unicodedata.decimal(chr(c), -1) == 0]
+    runs_ok = all(all(unicodedata.decimal(chr(c + k), -1) == k for k in range(10)) for c in zeros) and \
+        sum(1 for c in range(sys.maxunicode + 1) if unicodedata.decimal(chr(c), -1) >= 0) == 10 * len(zeros)
+    spaces = [c for c in range(127, sys.maxunicode + 1) if chr(c).isspace()]
+    mz, ms = pq.call("unicode_tables")
+    ctx.obligation("digit table: udigit_zeros / uspaces of Impl/Partition.v = unicodedata %s of the running interpreter (decimal digits come in runs of ten)"
+                   % unicodedata.unidata_version, runs_ok and list(mz) == zeros and list(ms) == spaces,
+                   "model zeros %r... python zeros %r...; model spaces %r python spaces %r" % (list(mz)[:5], zeros[:5], list(ms), spaces))
+    # int() itself on every decimal digit of every script, alone and mixed, and on every white space (model vs the interpreter)
+    probe = [chr(z + k) for z in zeros for k in (0, 3, 9)] + [chr(z + 1) + chr(zeros[(i + 1) % len(zeros)] + 2) for i, z in enumerate(zeros)] + \
+            [chr(c) + "5" + chr(c) for c in spaces] + [chr(z - 1) for z in zeros] + [chr(z + 10) for z in zeros]
+    outs_p = pq.batch([("parse_int", L.enc(t)) for t in probe])
+    for t, mo in zip(probe, outs_p):
+        try:
+            impl = int(t, base=10)
+        except ValueError:
+            impl = None
+        ctx.correspondence("parse_int ~ int(text, base=10) on the digits and white space of every script", {"text": t}, (mo[0] if mo else None), impl)
     # ---------------------------------------------------------------- A: path_string / "%s" % val
     n_a = 250 if quick else 2500
     cmds, meta, vals_a = [], [], []
